@@ -13,7 +13,6 @@ import GojaModel.Generated.C14_PanicKinds
 
 namespace GojaModel.C14.Expected
 
-
 /-- (case types, normalised body statements) in source order -/
 def efvCases : List (String × List String) := [
   ("*Object", ["ex = &Exception{ val: x1, }", "if er, ok := x1.self.(*errorObject); ok { ex.stack = er.stack }"]),
@@ -111,6 +110,7 @@ def skel_runWrapped : List String := [
 
 def skel_NewGoError : List String := [
   "e := r.newError(r.getGoError(), err.Error()).(*Object)",
+  "e.Set(\"value\", err)",
   "return e"]
 
 def skel_ExceptionUnwrap : List String := [
@@ -156,8 +156,10 @@ def skel_ForOf : List String := [
   "...func{",
   "...}",
   "..if ex != nil",
+  "...iter.returnIter()",
   "...panic(ex)",
   "..if !continueIteration",
+  "...iter.returnIter()",
   "...break",
   ".else",
   "..break"]
